@@ -1257,15 +1257,19 @@ def compile_and_run(ck, tag, tus, run_envs=None, timeout=1800):
         open(cpp, "w").write(src)
         cmd = ["g++", "-std=c++20", "-g", "-O0", "-w", "-fsanitize=address,undefined", "-fno-omit-frame-pointer",
                "-I" + emu, "-pthread"] + list(flags) + [cpp, "-o", os.path.join(d, name)]
-        procs[name] = subprocess.Popen(cmd, stdout=subprocess.PIPE, stderr=subprocess.PIPE, text=True)
+        ferr = open(os.path.join(d, name + ".gcc.err"), "w")
+        procs[name] = (subprocess.Popen(cmd, stdout=subprocess.DEVNULL, stderr=ferr), ferr)
+        while sum(1 for q, _ in procs.values() if q.poll() is None) >= 12:     # at most 12 compilers at a time
+            time.sleep(0.05)
     res = {}
-    for name, p in procs.items():
+    for name, (p, ferr) in procs.items():
         try:
-            so, se = p.communicate(timeout=timeout)
+            p.wait(timeout=timeout)
         except subprocess.TimeoutExpired:
             p.kill()
-            so, se = p.communicate()
-            se += "\ncompile timeout"
+            p.wait()
+        ferr.close()
+        se = open(ferr.name, errors="replace").read()
         if p.returncode != 0:
             res[name] = [({}, None, "", se[-3000:])]
             continue
